@@ -178,7 +178,7 @@ CHECKS['C25'] = _stack('Seeded search over scan and connect requests with right/
 CHECKS['C25']['harnesses'] = [_STACK, {'harness': 'nrf_sim', 'binary': 'nrf_sim'}]
 CHECKS['C25']['level_note'] = CHECKS['C25']['level_note'] + '; nrf_sim: the Hardware (registers, timers, radio) is a stub, nrf52.hpp runs as shipped, the link layer above it is a recording stub'
 CHECKS['C27'] = _stack('Seeded search over every LL control opcode (known, unknown, wrong length, responses and rejects) from the central, interleaved with peripheral initiated procedures, lost packets and full buffers: one specified '
-                       'answer per request (content checked for feature/unknown/version), none for responses and rejects, one LL_VERSION_IND per connection, and an unanswered peripheral procedure ends the connection after 40 s (not earlier).',
+                       'answer per request (content checked for feature/unknown/version), none for responses and rejects, one LL_VERSION_IND per connection, and an unanswered peripheral procedure ends the connection after 40 s: not earlier, and not missing (runs of thousands of connection events in which the central leaves a request unanswered).',
                        _ST + 'request/response bookkeeping of the central')
 CHECKS['C28'] = _stack('Two link layer configurations with link encryption, each on the simulated radio and on the real nRF52 front end with the gap byte PDU layout (legacy security manager, bond data base with two bonds, a characteristic that requires encryption; the radio keeps an encryption flag and key per direction and the '
                        'simulated air decides from flags and keys of both sides whether a PDU can be decoded). Seeded search over encryption start and pause procedures of an honest central (right key, wrong key, unknown EDIV/Rand), single '
